@@ -730,6 +730,14 @@ class StmtNorm(object):
                     nxt.test.operand.id if isinstance(nxt.test, ast.UnaryOp) and
                     isinstance(nxt.test.op, ast.Not) and isinstance(nxt.test.operand, ast.Name)
                     else None)
+                if flag is None:
+                    # any side-effect-free test of ONE local: `flag is not None`, `flag == 'x'`
+                    names = {n.id for n in ast.walk(nxt.test) if isinstance(n, ast.Name)}
+                    plain = not any(isinstance(n, (ast.Call, ast.Attribute, ast.Subscript,
+                                                   ast.Yield, ast.Await, ast.NamedExpr))
+                                    for n in ast.walk(nxt.test))
+                    if len(names) == 1 and plain:
+                        flag = next(iter(names))
                 if flag and _ends_with_flag(s.body, flag) and _ends_with_flag(s.orelse, flag):
                     self.bump('flag-threaded')
                     self._thread(s.body, nxt, flag)
